@@ -83,7 +83,8 @@ def run_property(pid, tier, seed, relock=False, verbose=False):
             print('DEGRADED function=%s reason=no contract' % q)
             degraded.append((q, 'no contract'))
         for ci, c in enumerate(db.contracts.get(q, [])):
-            tasks.append((q, ci, {'timeout': timeout, 'retry': retry, 'seed': seed % 1000, 'procs': 8}))
+            for case in db.cases_of(c):
+                tasks.append((q, ci, {'timeout': timeout, 'retry': retry, 'seed': seed % 1000, 'procs': 8, 'case': case}))
     for out in isolate.run(tasks, build, jobs=3):
         q = out['q']
         if out.get('error'):
@@ -115,7 +116,7 @@ def run_property(pid, tier, seed, relock=False, verbose=False):
             vacuous.append(lst[0])
 
     if relock:
-        lk = {k: v for k, v in lock.items() if not any(k.startswith(q + '/') for q in P['functions'])}
+        lk = {k: v for k, v in lock.items() if k.split('/')[0].split('@')[0] not in P['functions']}
         for o, r in discharged:
             lk[o.id] = 'P'
         json.dump(lk, open(LOCK, 'w'), indent=0, sort_keys=True)
@@ -220,7 +221,7 @@ def run_property(pid, tier, seed, relock=False, verbose=False):
     deg_fns = {q for q, _ in degraded}
     ids = {o.id for o in obligations}
     for k in lock:
-        q = k.split('/')[0]
+        q = k.split('/')[0].split('@')[0]
         if q in P['functions'] and q not in deg_fns and k not in ids:
             missing.append(k)
 
